@@ -227,13 +227,16 @@ func (f *FieldCopyFromGenerator) genObject() *j.Statement {
 			}
 			// if !v.Null
 			g.If(j.Id("!v.Null && !v.Unknown")).BlockFunc(func(g *j.Group) {
+				if f.IsNullable {
+					// obj.Nested = &Nested{} - a message with no fields still must not be nil if the object is not null
+					g.Id(objFieldName).Op("=&").Id(f.i.WithType(f.GoElemTypeIndirect)).Values()
+				}
+
 				if !m.IsEmpty {
 					// tf := v
 					g.Id("tf").Op(":=").Id("v")
 
 					if f.IsNullable {
-						// obj.Nested = &Nested{}
-						g.Id(objFieldName).Op("=&").Id(f.i.WithType(f.GoElemTypeIndirect)).Values()
 						// obj := obj.Nested
 						g.Id("obj").Op(":=").Id(objFieldName)
 					} else {
